@@ -10,6 +10,7 @@ import (
 	"math/rand/v2"
 	"sync"
 	"testing"
+	"time"
 
 	golangGrpc "google.golang.org/grpc"
 	"google.golang.org/grpc/codes"
@@ -44,13 +45,17 @@ func (r *recListener) OnIgnore()  { r.lg.add("complete:" + r.name + ":ignore") }
 func (r *recListener) OnDropped() { r.lg.add("complete:" + r.name + ":dropped") }
 
 type recLimiter struct {
-	lg    *log
-	name  string
-	grant bool
+	lg        *log
+	name      string
+	grant     bool
+	onAcquire func() // e.g. cancels the caller's context while the token is being handed over
 }
 
 func (r *recLimiter) Acquire(ctx context.Context) (core.Listener, bool) {
 	r.lg.add("acquire:" + r.name)
+	if r.onAcquire != nil {
+		r.onAcquire()
+	}
 	if !r.grant {
 		return nil, false
 	}
@@ -156,7 +161,7 @@ func unaryCase(idx int64, r *rand.Rand) {
 		kind = "unary-server"
 	}
 	granted := r.IntN(4) != 0
-	lim := &recLimiter{lg, "main", granted}
+	lim := &recLimiter{lg: lg, name: "main", grant: granted}
 	useLim := r.IntN(8) != 0
 	useCls := r.IntN(4) != 0
 	useExc := r.IntN(3) != 0
@@ -202,7 +207,29 @@ func unaryCase(idx int64, r *rand.Rand) {
 	}
 	var gotResp interface{}
 	var gotErr error
+	// the caller's context: live, already cancelled, expired, or cancelled while the limiter hands the token over -
+	// the interceptors gate on the limiter, not on the context
 	ctx := context.Background()
+	ctxMode := []string{"live", "live", "cancelled-before-call", "expired", "cancelled-during-acquire"}[r.IntN(5)]
+	switch ctxMode {
+	case "cancelled-before-call":
+		c, cancel := context.WithCancel(ctx)
+		cancel()
+		ctx = c
+	case "expired":
+		c, cancel := context.WithDeadline(ctx, time.Unix(1, 0))
+		defer cancel()
+		ctx = c
+	case "cancelled-during-acquire":
+		c, cancel := context.WithCancel(ctx)
+		defer cancel()
+		lim.onAcquire = cancel
+		ctx = c
+	}
+	cfg["context"] = ctxMode
+	if ctxMode != "live" {
+		rt.Count("calls_with_a_dead_context", 1)
+	}
 	if server {
 		ic := gclGrpc.UnaryServerInterceptor(opts...)
 		gotResp, gotErr = ic(ctx, "req", &golangGrpc.UnaryServerInfo{FullMethod: "/svc/M"}, func(ctx context.Context, req interface{}) (interface{}, error) {
@@ -280,8 +307,8 @@ func unaryCase(idx int64, r *rand.Rand) {
 
 func streamCase(idx int64, r *rand.Rand) {
 	lg := &log{}
-	recvL := &recLimiter{lg, "recv", true}
-	sendL := &recLimiter{lg, "send", true}
+	recvL := &recLimiter{lg: lg, name: "recv", grant: true}
+	sendL := &recLimiter{lg: lg, name: "send", grant: true}
 	useRecvL, useSendL := r.IntN(6) != 0, r.IntN(6) != 0
 	useCls := r.IntN(4) != 0
 	useExc := r.IntN(3) != 0
@@ -315,7 +342,14 @@ func streamCase(idx int64, r *rand.Rand) {
 			return nil, sendCode, errors.New("send limit exceeded")
 		}))
 	}
-	fs := &fakeStream{lg: lg, ctx: context.Background()}
+	sctx := context.Background()
+	if r.IntN(3) == 0 {
+		c, cancel := context.WithCancel(sctx)
+		cancel()
+		sctx = c
+		rt.Count("calls_with_a_dead_context", 1)
+	}
+	fs := &fakeStream{lg: lg, ctx: sctx}
 	ic := gclGrpc.StreamServerInterceptor(opts...)
 	nops := 1 + r.IntN(12)
 	var seq []string
